@@ -413,7 +413,9 @@ class PteraTransformer(NodeTransformer):
 
         return body
 
-    def make_interaction(self, target, ann, value, orig=None, expression=False):
+    def make_interaction(
+        self, target, ann, value, orig=None, expression=False, index_saved=False
+    ):
         """Create code for setting the value of a variable."""
         if ann and isinstance(target, ast.Name):
             evaluated = self._evaluate(ann)
@@ -443,7 +445,8 @@ class PteraTransformer(NodeTransformer):
             slc = slc.value if isinstance(target.slice, ast.Index) else slc
             if (
                 not expression
-                and not isinstance(slc, (ast.Constant, ast.Name))
+                and not index_saved
+                and not isinstance(slc, ast.Constant)
                 and self.should_instrument(target.value.id, ann, True)
             ):
                 # The index is needed twice (to report it and to store): it
@@ -469,7 +472,7 @@ class PteraTransformer(NodeTransformer):
                     value=target.value, slice=slc, ctx=ast.Store()
                 )
                 return prelude + self.make_interaction(
-                    target, ann, value_arg, orig=orig
+                    target, ann, value_arg, orig=orig, index_saved=True
                 )
             value_args = [
                 target.value.id,
